@@ -98,8 +98,17 @@ func resources(p *program) (core.Dict, func(core.IndirectRef) (core.Object, erro
 		if f.ownFonts {
 			res["Font"] = fontDict()
 		}
+		if f.damaged {
+			// a damaged form brings fonts of its own under the page's names that
+			// decode every code to a box-drawing character: nothing of them may be
+			// in effect once the Do is over
+			res["Font"] = poisonFontDict()
+		}
 		if len(res) > 0 {
 			d["Resources"] = res
+		}
+		if f.danglingRes && len(f.children) == 0 {
+			d["Resources"] = core.IndirectRef{Number: 9999}
 		}
 		data := f.data()
 		d["Length"] = core.Int(len(data))
@@ -113,6 +122,17 @@ func resources(p *program) (core.Dict, func(core.IndirectRef) (core.Object, erro
 		return nil, fmt.Errorf("object %d not found", ref.Number)
 	}
 	return res, resolver
+}
+
+const poisonCMap = "/CIDInit /ProcSet findresource begin\n12 dict begin\nbegincmap\n/CMapName /Poison def\n1 begincodespacerange\n<00> <FF>\nendcodespacerange\n1 beginbfrange\n<00> <FF> <2500>\nendbfrange\nendcmap\nend\nend\n"
+
+func poisonFontDict() core.Dict {
+	tu := &core.Stream{Dict: core.Dict{"Length": core.Int(len(poisonCMap))}, Data: []byte(poisonCMap)}
+	d := core.Dict{}
+	for _, n := range []string{"F1", "F2", "F3"} {
+		d[n] = core.Dict{"Type": core.Name("Font"), "Subtype": core.Name("Type1"), "BaseFont": core.Name("Helvetica"), "ToUnicode": tu}
+	}
+	return d
 }
 
 func runCase(c *fw.Ctx, id string, idx int) {
@@ -427,6 +447,7 @@ func pdfFile(p *program, polluter bool) []byte {
 		}
 	}
 	var top []string
+	needPoison := false
 	for n := 1; n <= len(p.forms); n++ {
 		name := fmt.Sprintf("Fm%d", n)
 		f := p.forms[name]
@@ -445,15 +466,29 @@ func pdfFile(p *program, polluter bool) []byte {
 		if len(f.children) > 0 {
 			res += xobj(f.children)
 		}
-		if f.ownFonts {
+		if f.ownFonts && !f.damaged {
 			res += fonts
+		}
+		if f.damaged {
+			res += "/Font<</F1 POISON 0 R/F2 POISON 0 R/F3 POISON 0 R>>"
+			needPoison = true
 		}
 		if res != "" {
 			d += "/Resources<<" + res + ">>"
 		}
+		if f.danglingRes && len(f.children) == 0 {
+			d = strings.Replace(d, "/Resources<<"+res+">>", "", 1) + "/Resources 9999 0 R"
+		}
 		add(stream(d, f.data()))
 	}
 	objs[2] = "<</Type/Page/Parent 2 0 R/MediaBox[0 0 612 792]/Resources<<" + fonts + xobj(top) + ">>/Contents 4 0 R>>"
+	if needPoison {
+		tu := add(stream("", []byte(poisonCMap)))
+		pf := add(fmt.Sprintf("<</Type/Font/Subtype/Type1/BaseFont/Helvetica/ToUnicode %d 0 R>>", tu))
+		for i := range objs {
+			objs[i] = strings.ReplaceAll(objs[i], "POISON 0 R", fmt.Sprintf("%d 0 R", pf))
+		}
+	}
 	if polluter {
 		pc := add(stream("", []byte("BT /F2 7 Tf 17 TL 3 Tc 2 Tw 80 Tz 4 Ts 1 0 0 1 9 9 Tm 5 -11 TD ("+polluterText+") Tj ET\n2 0 0 2 30 40 cm q 3 0 0 3 7 7 cm BT /F3 5 Tf 13 TL 1 1 Td")))
 		pp := add(fmt.Sprintf("<</Type/Page/Parent 2 0 R/MediaBox[0 0 612 792]/Resources<<%s>>/Contents %d 0 R>>", fonts, pc))
